@@ -627,7 +627,10 @@ fn cmp(n: &Node, r: &RNode, in_flow: bool, next_id: &mut usize, env: &mut HashMa
     match (&n.kind, r) {
         (Kind::Scalar { text, style }, RNode::Scalar { value, style: rs, anchor, tag, .. }) => {
             let want = if in_flow && matches!(style, Style::Literal | Style::Folded) { Style::Double } else { *style };
-            if value != text {
+            // the parser reports an empty node without properties as a plain `~`, one with an anchor or tag as
+            // a plain scalar without text: the model's empty plain scalar stands for both
+            let empty_node = text.is_empty() && *style == Style::Plain && value == "~" && n.anchor.is_none() && n.tag.is_none();
+            if value != text && !empty_node {
                 return Err(format!("scalar text {:?} vs {:?}", text, value));
             }
             if style_of(want) != *rs {
